@@ -1,7 +1,7 @@
 use num::bigint::BigInt;
 use num::traits::FloatConst;
 use num::{
-    BigRational, CheckedAdd, CheckedDiv, CheckedMul, CheckedSub, FromPrimitive, Rational64, Signed,
+    BigRational, CheckedAdd, CheckedMul, CheckedSub, FromPrimitive, Rational64, Signed,
 };
 use num::{Num, Rational32, ToPrimitive};
 use std::cmp::Ordering;
@@ -563,7 +563,7 @@ impl Add for &Number {
                 Number::Rational(rhs) => {
                     if lhs.to_i32().is_some() {
                         let lhs_rational = Rational32::from_integer(*lhs as i32);
-                        match lhs_rational.checked_add(rhs) {
+                        match ratio_add(&lhs_rational, rhs) {
                             Some(num) => num.into(),
                             None => (*lhs as f64 + rhs.to_f64().unwrap_or(f64::NAN)).into(),
                         }
@@ -594,7 +594,7 @@ impl Add for &Number {
                 Number::Fixnum(rhs) => {
                     if rhs.to_i32().is_some() {
                         let rhs_rational = Rational32::from_integer(*rhs as i32);
-                        match rhs_rational.checked_add(lhs) {
+                        match ratio_add(&rhs_rational, lhs) {
                             Some(num) => num.into(),
                             None => (lhs.to_f64().unwrap_or(f64::NAN) + *rhs as f64).into(),
                         }
@@ -610,7 +610,7 @@ impl Add for &Number {
                         (rhs.to_f64().unwrap() + lhs.to_f64().unwrap_or(f64::NAN)).into()
                     }
                 }
-                Number::Rational(rhs) => match lhs.checked_add(rhs) {
+                Number::Rational(rhs) => match ratio_add(lhs, rhs) {
                     Some(num) => num.into(),
                     None => {
                         (lhs.to_f64().unwrap_or(f64::NAN) + rhs.to_f64().unwrap_or(f64::NAN)).into()
@@ -723,7 +723,7 @@ impl Sub for &Number {
                 Number::Rational(rhs) => {
                     if lhs.to_i32().is_some() {
                         let lhs_rational = Rational32::from_integer(*lhs as i32);
-                        match lhs_rational.checked_sub(rhs) {
+                        match ratio_sub(&lhs_rational, rhs) {
                             Some(num) => num.into(),
                             None => (*lhs as f64 - rhs.to_f64().unwrap_or(f64::NAN)).into(),
                         }
@@ -754,7 +754,7 @@ impl Sub for &Number {
                 Number::Fixnum(rhs) => {
                     if rhs.to_i32().is_some() {
                         let rhs_rational = Rational32::from_integer(*rhs as i32);
-                        match lhs.checked_sub(&rhs_rational) {
+                        match ratio_sub(lhs, &rhs_rational) {
                             Some(num) => num.into(),
                             None => (lhs.to_f64().unwrap_or(f64::NAN) - *rhs as f64).into(),
                         }
@@ -770,7 +770,7 @@ impl Sub for &Number {
                         (lhs.to_f64().unwrap_or(f64::NAN) - rhs.to_f64().unwrap()).into()
                     }
                 }
-                Number::Rational(rhs) => match lhs.checked_sub(rhs) {
+                Number::Rational(rhs) => match ratio_sub(lhs, rhs) {
                     Some(num) => num.into(),
                     None => {
                         (lhs.to_f64().unwrap_or(f64::NAN) - rhs.to_f64().unwrap_or(f64::NAN)).into()
@@ -795,14 +795,37 @@ fn ratio_of(numer: Option<i32>, denom: Option<i32>) -> Option<Rational32> {
     ratio_div(&Rational32::from_integer(numer?), &Rational32::from_integer(denom?))
 }
 
-/// lhs / rhs, or None if the quotient is not a Rational32. checked_div first reduces by
-/// gcd(lhs.numer, rhs.numer), and gcd(0, i32::MIN) overflows: a zero dividend is
-/// answered before it gets there.
+/// A 32-bit rational in 64 bits, where the cross products a sum, a difference or a
+/// quotient of two of them is formed from cannot overflow.
+fn widen(num: &Rational32) -> Rational64 {
+    Rational64::new_raw(*num.numer() as i64, *num.denom() as i64)
+}
+
+/// Back to 32 bits, or None if numerator or denominator of the (reduced) result do not
+/// fit. Rational32's own checked_add / checked_sub / checked_div give up as soon as an
+/// intermediate product leaves 32 bits, also where the result fits: 2147483647/2 +
+/// 2147483647/2 is 2147483647; and checked_div takes gcd(0, i32::MIN), which overflows.
+fn narrow(num: Rational64) -> Option<Rational32> {
+    Some(Rational32::new_raw(
+        num.numer().to_i32()?,
+        num.denom().to_i32()?,
+    ))
+}
+
+fn ratio_add(lhs: &Rational32, rhs: &Rational32) -> Option<Rational32> {
+    narrow(widen(lhs) + widen(rhs))
+}
+
+fn ratio_sub(lhs: &Rational32, rhs: &Rational32) -> Option<Rational32> {
+    narrow(widen(lhs) - widen(rhs))
+}
+
+/// lhs / rhs, or None if the quotient is not a Rational32 (or rhs is zero).
 fn ratio_div(lhs: &Rational32, rhs: &Rational32) -> Option<Rational32> {
-    if *lhs.numer() == 0 && *rhs.numer() != 0 {
-        return Some(Rational32::from_integer(0));
+    if *rhs.numer() == 0 {
+        return None;
     }
-    lhs.checked_div(rhs)
+    narrow(widen(lhs) / widen(rhs))
 }
 
 /// The inexact stand-in for an exact product or quotient that no representation holds:
